@@ -7,7 +7,8 @@
  * define the reachable pre-state (they are then assumptions, stated in the job) */
 int vf_assert_as_assume;
 void _dbus_real_assert (dbus_bool_t condition, const char *condition_text, const char *file, int line, const char *func)
-{ if (!vf_assert_as_assume) VF_ASSERT (condition, "dbus internal assertion (_dbus_assert)"); VF_ASSUME (condition); }
+{ if (!condition) VF_SHOW ("_dbus_assert (%s) failed at %s:%d\n", condition_text, file, line);
+  if (!vf_assert_as_assume) VF_ASSERT (condition, "dbus internal assertion (_dbus_assert)"); VF_ASSUME (condition); }
 void _dbus_real_assert_not_reached (const char *explanation, const char *file, int line)
 { if (!vf_assert_as_assume) VF_ASSERT (0, "dbus _dbus_assert_not_reached"); VF_ASSUME (0); }
 void _dbus_verbose_real (const char *file, const int line, const char *function, const char *format, ...) { }
